@@ -46,7 +46,7 @@ def fmtSent (l : List Datagram) : String :=
   if l.isEmpty then "sent=-" else
   "sent=" ++ "|".intercalate ((sortByClient l).map fun d => s!"c{d.dest}:{bytesHex d.body}")
 
-def flushAll (js : List UdpJob) : List Datagram := js.flatMap fun j => j.flush.2
+def flushAll (js : List UdpJob) : List Datagram := sendGroup js
 
 def fateName : InlineFate → String
   | .staged => "inline" | .released => "inline" | .handoff => "handoff"
@@ -205,6 +205,12 @@ def step (st : State) (w : List String) : State × String :=
     match hexBytes h with
     | some b => (st, connOut b)
     | none => (st, "bad-op")
+  | ["tcp", "stall", w, acc, h] =>
+    match w.toNat?, acc.toNat?, hexBytes h with
+    | some wi, some a, some b =>
+      let o := serveStreamS sz program (b.length / 2 + 2) b { failAt := wi, accept := a }
+      (st, s!"n={o.wire.length} h={hex16 (fnv64 o.wire)}")
+    | _, _, _ => (st, "bad-op")
   | ["tcp", "abort", _k, _s1, s2] =>
     match hexBytes s2 with
     | some b => (st, connOut b)
